@@ -11,7 +11,7 @@ namespace e1 {
 
 static const char* EVN[] = {"none", "connect-ok", "write-ok", "write-on-dead-conn", "write-complete-late", "read", "read-err", "read-eof", "shutdown-ok", "release", "app", "time",
     "connect-refused", "connect-hang", "hs-rc", "hs-malformed", "hs-silent", "hs-close", "wr-fail", "wr-short", "tail-loss", "wr-deliver-only", "wr-fail-late",
-    "wr-noreply", "wr-delay", "wr-bclose-before", "wr-bclose-after", "rd-chunk", "rd-cut", "rd-loss", "shutdown-hang", "inject", "continue", "resolve-done", "resolve-fail"};
+    "wr-noreply", "wr-delay", "wr-bclose-before", "wr-bclose-after", "rd-chunk", "rd-cut", "rd-loss", "shutdown-hang", "inject", "continue", "resolve-done", "resolve-fail", "wr-hang"};
 std::string Event::str() const {
     std::string s = EVN[k]; if (stream >= 0) s += " s" + std::to_string(stream);
     if (k == WR_FAIL || k == WR_SHORT || k == TAIL_LOSS || k == RD_CHUNK || k == RD_CUT) s += " k=" + std::to_string(a);
@@ -61,12 +61,14 @@ bool World::resolver_busy() {
 using timer_traits = asio::detail::chrono_time_traits<std::chrono::steady_clock, asio::wait_traits<std::chrono::steady_clock>>;
 using timer_svc = asio::detail::deadline_timer_service<timer_traits>;
 std::optional<int64_t> World::next_timer() {
-    if (!asio::has_service<timer_svc>(*ioc)) return std::nullopt;
+    std::optional<int64_t> env;
+    for (auto& d : env_deadlines) { auto& st = net->streams[d.second]; if (st->write_parked && st->write_hung && (!env || d.first < *env)) env = d.first; }
+    if (!asio::has_service<timer_svc>(*ioc)) return env;
     auto& q = asio::use_service<timer_svc>(*ioc).timer_queue_;
-    if (q.heap_.empty()) return std::nullopt;
+    if (q.heap_.empty()) return env;
     int64_t t = int64_t(q.heap_[0].time_.time_since_epoch().count());
-    if (t - vclock::now_ns() > 1000000000LL * 86400 * 365 * 10) return std::nullopt;   // 'never' timers (keep-alive 0)
-    return t;
+    if (t - vclock::now_ns() > 1000000000LL * 86400 * 365 * 10) return env;   // 'never' timers (keep-alive 0)
+    return env && *env < t ? *env : t;
 }
 int World::pending_timers() {
     if (!asio::has_service<timer_svc>(*ioc)) return 0;
@@ -164,7 +166,7 @@ void World::enabled(std::vector<Event>& ev) {
             if (fam & F_CONN) { add(variants, Event::CONNECT_REFUSED, s); add(variants, Event::CONNECT_HANG, s); }
         }
         sim::Conn* c = net->conn_of(st);
-        if (st->write_parked) {
+        if (st->write_parked && !st->write_hung) {
             if (st->write_delivered) { add(late, Event::WRITE_COMPLETE_LATE, s); if (fam & F_WR) add(variants, Event::WR_FAIL_LATE, s, 0, 1); }
             else if (c && c->dead) add(defaults, Event::WRITE_DEAD, s);
             else {
@@ -172,6 +174,7 @@ void World::enabled(std::vector<Event>& ev) {
                 const std::string& d = st->write_data; int len = int(d.size());
                 bool is_connect = len > 0 && (uint8_t(d[0]) >> 4) == 1;
                 if ((fam & F_HS) && is_connect) { add(variants, Event::HS_RC, s); add(variants, Event::HS_MALFORMED, s); add(variants, Event::HS_SILENT, s); add(variants, Event::HS_CLOSE, s); }
+                if ((fam & F_WR) && !is_connect) add(variants, Event::WRITE_HANG, s);   // send buffer full / dead peer: the write stays pending until the stream is closed
                 if (fam & F_WR) for (int k : cut_positions(d, bytelvl)) { add(variants, Event::WR_FAIL, s, k, (k % 2) ? 1 : 2); if (k == 0) add(variants, Event::WR_FAIL, s, k, 1); }
                 if ((fam & F_WRSHORT) && len > 1) { add(variants, Event::WR_SHORT, s, 1); if (len > 3) add(variants, Event::WR_SHORT, s, len / 2); }
                 if (fam & F_TAIL) { auto b = boundaries_of(d); b.insert(b.begin(), 0); for (int x : b) if (x < len) add(variants, Event::TAIL_LOSS, s, x); }
@@ -240,9 +243,12 @@ void World::apply(const Event& e) {
     case Event::READ_EOF: net->complete_read(st, asio::error::eof, 0); break;
     case Event::SHUTDOWN_OK: net->complete_shutdown(st, {}); break;
     case Event::SHUTDOWN_HANG: st->shutdown_hung = true; break;
+    case Event::WRITE_HANG: st->write_hung = true; env_deadlines.emplace_back(now() + 45 * 1000000000LL, st->id); if (cid >= 0) broker->set_behaviour(cid, bkr::B_NOREPLY); break;   // nothing of it reaches the broker; the peer has gone quiet
     case Event::RELEASE: broker->release_held(e.a); break;
     case Event::APP: { for (;;) { const Action& a = sc.script[script_pos++]; do_action(a, false); if (!a.chain || script_pos >= sc.script.size()) break; } break; }
-    case Event::TIME: { auto t = next_timer(); if (t && *t > now()) vclock::set_ns(*t); break; }
+    case Event::TIME: { auto t = next_timer(); if (t && *t > now()) vclock::set_ns(*t);
+        for (auto& d : env_deadlines) { auto& hs = net->streams[d.second]; if (d.first <= now() && hs->write_parked && hs->write_hung) { tr("  (hung write on s" + std::to_string(hs->id) + " gives up: timed out)"); hs->write_hung = false; int hc = hs->conn; net->complete_write(hs, asio::error::timed_out, 0); if (hc >= 0) net->kill_conn(hc, asio::error::timed_out); } }
+        break; }
     case Event::INJECT: injected = true; do_action(*sc.inject, false); for (auto& more : sc.inject_more) do_action(more, false); break;
     case Event::RESOLVE_DONE: vclock::dns_release(false); break;
     case Event::RESOLVE_FAIL: vclock::dns_release(true); break;
